@@ -169,6 +169,11 @@ class Interp(object):
         f = self.frame
         return "%s/%s" % (f.qualname if f else "<top>", clause)
 
+    # python exception a failed side condition stands for (the engine models these as obligations, not as
+    # catchable exceptions: inside a handler that would catch them the code is outside the subset)
+    SIDE_EXC = {"divisor_nonzero": "ZeroDivisionError", "shift_nonneg": "ValueError", "index_in_range": "IndexError",
+                "array_index_in_range": "IndexError", "pow_exponent_nonneg": None, "log2_of_power_of_two": None}
+
     def side_obligation(self, name, cond):
         if self.spec_mode:
             return
@@ -176,6 +181,13 @@ class Interp(object):
             if cond:
                 return
             cond = z3.BoolVal(False)
+        et = self.SIDE_EXC.get(name)
+        if et is not None:
+            for handlers in getattr(self, "try_stack", ()):
+                for h in handlers:
+                    if h is None or any(exc_isinstance(et, n) for n in h):
+                        raise OutOfSubset("a possible %s (%s) inside a try block whose handler would catch it: "
+                                          "such exceptions are modelled as obligations only" % (et, name))
         f = self.frame
         drop = ("qfact",) if (f is not None and getattr(f, "active_hints", None)) else None
         self.path.oblige(self.oblname("side/" + name), cond, kind="side", drop=drop)
@@ -446,7 +458,9 @@ class Interp(object):
                 saved = self.spec_mode
                 self.spec_mode += 1
                 try:
-                    rest = [ops.truth(self, self.eval(x, env)) for x in node.values[k + 1:]]
+                    # value semantics: "b and x" IS x (not bool(x)) when b is true, so the merge into a
+                    # conjunction is only right when every remaining operand is itself a bool
+                    rest = [self.eval(x, env) for x in node.values[k + 1:]]
                 except (OutOfSubset, PyRaise):
                     rest = None
                 finally:
@@ -765,9 +779,32 @@ class Interp(object):
                 self.path.event("with_body_raised")
                 raise PyRaise("BodyError", origin="the body of the with statement raised")
 
+    def _comp_concrete(self, node, gens, env, emit):
+        """Comprehension over iterables of statically known length; filters fork the path."""
+        if not gens:
+            emit(env)
+            return
+        g = gens[0]
+        if g.is_async:
+            raise OutOfSubset("async comprehension")
+        it = self.eval(g.iter, env)
+        for item in self.iter_concrete(it):
+            e2 = Env(parent=env)
+            self.assign(g.target, item, e2)
+            keep = True
+            for cond in g.ifs:
+                c = ops.truth(self, self.eval(cond, e2))
+                if not self.path.choose(c):
+                    keep = False
+                    break
+            if keep:
+                self._comp_concrete(node, gens[1:], e2, emit)
+
     def e_ListComp(self, node, env):
         if len(node.generators) != 1 or node.generators[0].ifs:
-            raise OutOfSubset("complex comprehension")
+            out = []
+            self._comp_concrete(node, node.generators, env, lambda e2: out.append(self.eval(node.elt, e2)))
+            return PyList(out)
         g = node.generators[0]
         it = self.eval(g.iter, env)
         seq = it.seq if isinstance(it, GenVal) else it
@@ -790,6 +827,20 @@ class Interp(object):
             self.assign(g.target, item, e2)
             out.append(self.eval(node.elt, e2))
         return PyList(out)
+
+    def e_DictComp(self, node, env):
+        out = PyDict({})
+
+        def emit(e2):
+            k = self.eval(node.key, e2)
+            out.items[self.hashable(k)] = self.eval(node.value, e2)
+        self._comp_concrete(node, node.generators, env, emit)
+        return out
+
+    def e_SetComp(self, node, env):
+        out = []
+        self._comp_concrete(node, node.generators, env, lambda e2: out.append(self.eval(node.elt, e2)))
+        return PySet(out)
 
     def e_GeneratorExp(self, node, env):
         return self.e_ListComp(node, env)
